@@ -545,7 +545,12 @@ fn run_op(ctx: &Ctx, graph: &mut ModuleGraph, op: &Value) -> Value {
     }
     "prune_types" => {
       graph.prune_types();
-      json!({"graph": dump_graph(ctx, graph)})
+      let mut inner = vec![];
+      for sub in op["then"].as_array().map(|a| a.as_slice()).unwrap_or(&[]) {
+        let mut g2 = graph.clone();
+        inner.push(run_op(ctx, &mut g2, sub));
+      }
+      json!({"graph": dump_graph(ctx, graph), "then": inner})
     }
     "segment" => {
       let roots = ids_to_urls(ctx, &op["roots"]);
